@@ -312,7 +312,7 @@ fn spawn_sim_thread(
         // names from a tiny pool, so that several live threads share a name
         // (per-thread state must not be keyed by it)
         Api::Builder => std::thread::Builder::new()
-            .name(["worker", "pool-0", "pool-1"][(id % 3) as usize].to_string())
+            .name(["worker", "pool-0", "main", "pool-1"][(id % 4) as usize].to_string())
             .stack_size(512 * 1024)
             .spawn(body)
             .map_err(|e| e.to_string()),
